@@ -120,6 +120,13 @@ TECHNIQUE = {
 }
 
 
+KNOWN = {
+    'C14': ' One obligation (C14-c, node-level state of AdaptiveDistance shared by copy()) is '
+           'violated on the current tree and listed as a known finding (F29): the check prints '
+           'KNOWN-FINDING lines for it and exits 0; any other violation exits 1.',
+}
+
+
 def main():
     props = [json.loads(l) for l in open(os.path.join(HERE, 'properties.jsonl'))]
     checks, na = [], []
@@ -147,7 +154,7 @@ def main():
                 },
                 'level_note': 'Not decided by this technique: {}. Trusted base: Python ast, the '
                               'library facts listed in the evidence file, closed world over '
-                              'package elfi.'.format(NOT_DECIDED[pid]),
+                              'package elfi.'.format(NOT_DECIDED[pid]) + KNOWN.get(pid, ''),
                 'technique': TECHNIQUE[pid],
             })
         else:
